@@ -88,6 +88,7 @@ typedef struct {
 	int unknown_nc;       /* number of ignored unknown non-critical elements */
 	int unknown_nc_hashed;/* ... of them inside RC_HASHED content */
 	int empty_values;     /* known elements with an empty payload where the value type needs content */
+	int empty_at_end;     /* ... of them ending exactly at the end of the input */
 } rsch_info;
 
 /* validates `n` bytes offered as `root` */
